@@ -353,6 +353,8 @@ theorem splitPath_keyG {path : Bytes} {parts : List Bytes} {key : Bytes}
       exact ⟨P.nilKey, by simp⟩
     · cases h
   · rename_i x rest _ heq
+    split at h
+    · cases h
     simp only [Option.some.injEq, Prod.mk.injEq] at h
     obtain ⟨rfl, rfl⟩ := h
     rw [heq] at hp
@@ -622,6 +624,8 @@ theorem ensurePath_G {o r path} (hr : RootG P r)
   · exact hr
   · exact hr
   · rename_i hd parts _ heq
+    split
+    · exact hr
     have := ensure_G (P := P) o parts r.selfCR r.self r.con
       (fun p h => hp p (by rw [heq]; exact List.mem_cons_of_mem _ h)) hr.1 hr.2
     cases h : ensure o r.selfCR r.self r.con parts with
